@@ -316,29 +316,37 @@ def run_workload(seed):
 _REF = {}
 
 
+def _raised(msg):
+    lines = [l for l in (msg or '').strip().split('\n') if l.strip()]
+    return 'raised ' + (lines[-1].strip() if lines else '?')
+
+
 def run_hashseed(shard, tier, res, mod):
     ref, ref_out = run_workload(0)
     res.evaluations += 1
-    if ref is None:
-        res.flags['harness_error'] += 1
-        res.caps.append('harness error: workload failed under PYTHONHASHSEED=0: %s' % ref_out)
-        return
+    ref_key = ref if ref is not None else _raised(ref_out)
     for seed in shard['seeds']:
         res.evaluations += 1
         res.traces += 1
         dg, out = run_workload(seed)
-        if dg is None:
-            res.violation(mod, {'mode': 'hashseed', 'seed': seed}, 'workload raised under PYTHONHASHSEED=%d: %s' % (seed, out))
-        elif dg != ref:
-            a, b = json.loads(ref_out), json.loads(out)
-            diff = [(x, y) for x, y in zip(a, b) if x != y][:1]
-            res.violation(mod, {'mode': 'hashseed', 'seed': seed}, 'results differ between PYTHONHASHSEED=0 and %d: %r' % (seed, diff))
+        key = dg if dg is not None else _raised(out)
+        if key != ref_key:
+            if dg is None or ref is None:
+                diff = '%s under PYTHONHASHSEED=0, %s under PYTHONHASHSEED=%d' % (ref_key[:300], key[:300], seed)
+            else:
+                a, b = json.loads(ref_out), json.loads(out)
+                diff = repr([(x, y) for x, y in zip(a, b) if x != y][:1])
+            res.violation(mod, {'mode': 'hashseed', 'seed': seed}, 'results differ between PYTHONHASHSEED=0 and %d: %s' % (seed, diff))
             res.outcomes['seed dependent'] += 1
+        elif dg is None:
+            # the workload fails in the same way under both seeds: nothing about hash seeds, the check itself is unusable
+            res.flags['harness_error'] += 1
+            res.caps.append('harness error: workload failed under PYTHONHASHSEED=0 and %d: %s' % (seed, (out or '')[-600:]))
         else:
             res.outcomes['seed independent'] += 1
             res.nontrivial += 1
-        res.digest(seed, dg)
-    res.sample({'hash_seeds': shard['seeds'], 'workload_digest': ref}, 1)
+        res.digest(seed, key)
+    res.sample({'hash_seeds': shard['seeds'], 'workload_digest': ref_key}, 1)
 
 
 def run_shard(shard, tier, res):
@@ -360,9 +368,11 @@ def replay(case):
         r3 = impl.outcome(s2.evaluate, copy.deepcopy(case['d1']))
         return [] if explore.snapshot(r1) == explore.snapshot(r3) else ['evaluate(d1) %r, after evaluate(d2): %r' % (r1, r3)]
     if mode == 'hashseed':
-        a, _ = run_workload(0)
-        b, _ = run_workload(case['seed'])
-        return [] if a == b else ['digest differs for seed %d' % case['seed']]
+        a, ao = run_workload(0)
+        b, bo = run_workload(case['seed'])
+        a = a if a is not None else _raised(ao)
+        b = b if b is not None else _raised(bo)
+        return [] if a == b else ['outcome differs for seed %d: %s vs %s' % (case['seed'], a[:200], b[:200])]
     if mode == 'isolation':
         group = [tuple(o[:3]) + (tuple(o[3]), o[4], o[5]) + ((tuple(o[6]),) if len(o) > 6 else ()) for o in case['group']]
         seqs = [call_seq(o[0], o[2], o[5]) for o in group]
